@@ -366,6 +366,7 @@ def verdict(prop, tier, seed, merged, l1, t0, level_extra=None, spec="TV_Store")
             "trace_events": merged["events"], "cases": merged["cases"],
             "predicate_evaluations_per_property": merged["cnt"],
             "drift_notes": len(merged["drift"]),
+            "escalated_after_drift": bool(merged.get("escalated")),
             "pipeline_conformance_events": merged.get("stage_sampled", 0),
             "tlc_generated_cases_replayed": merged.get("tlc_generated_cases", 0),
             "violations_of_other_properties_seen": others,
@@ -438,8 +439,11 @@ def run_l1(prop, tier):
 
 
 # ------------------------------------------------------------------------------------------------ plans
+SCALE = 1      # raised for the escalation run that follows a quick run with conformance drift
+
+
 def sizes(tier, quick, thorough):
-    return quick if tier == "quick" else thorough
+    return quick * SCALE if tier == "quick" else thorough
 
 
 def cases_for(prop, tier, seed, pools, toks, ck):
@@ -515,6 +519,21 @@ def run_property(prop, tier, seed):
     pools, toks = build_pools(ck, tier, rnd)
     cases = cases_for(prop, tier, seed, pools, toks, ck)
     merged = run_cases(prop, cases, ck, sh, stage_budget=sizes(tier, 200, 4000))
+    mine = [v for v in merged["viol"] if v["prop"] == prop]
+    if merged["drift"] and not mine and tier == "quick":
+        # the code no longer follows the implementation-shaped specification (L2 drift) although this property's predicate
+        # held on everything replayed so far: the bounded-model results do not transfer, so the replayed enumeration is
+        # widened (other seed, five times the cases) before deciding (DESIGN.md 3.4, item 5)
+        global SCALE
+        log("[escalate] %d drift notes and no violation of %s yet: widening the replayed enumeration" % (len(merged["drift"]), prop))
+        SCALE = 5
+        try:
+            more = cases_for(prop, tier, seed + 7777, pools, toks, ck)
+        finally:
+            SCALE = 1
+        m2 = run_cases(prop + "x", more, ck, sh, stage_budget=600)
+        merge_into(merged, m2)
+        merged["escalated"] = True
     if prop in ("C10", "C12"):
         # specification -> implementation: every history of the bounded Store machine, replayed on a real Store
         gc, n = tlc_generated_store_cases(tier)
